@@ -469,7 +469,9 @@ def run_pipeline(
                     image_dtype: np.dtype = buckets_data_tree["image"].dtype
                     exp_dtype: np.dtype = detector.image.dtype
 
-                    if image_dtype != exp_dtype:
+                    # Note: an unsigned integer result already holds all steps exactly (also
+                    #       when a model changes the image's data type between two steps)
+                    if image_dtype != exp_dtype and image_dtype.kind != "u":
                         buckets_data_tree["image"] = buckets_data_tree[
                             "image"
                         ].astype(dtype=exp_dtype)
